@@ -210,6 +210,23 @@ Theorem C19_swap_jitter0_in_force_delay_exact :
 Proof. exact swap_jitter0_in_force_delay_exact. Qed.
 Print Assumptions C19_swap_jitter0_in_force_delay_exact.
 
+(* ---------------------------------------------------------------- the sleep ticker *)
+(* the EFFECTIVE delay: s.tick is a Ticker with a one-slot buffer (the module is `go 1.18`); a tick
+   that fired during a long contact is still in the buffer when wait() is entered and Reset does not
+   remove it.  Because wait() drains the channel before Reset, the receive that ends the sleep
+   happens exactly w after wait() armed the timer, whatever state the ticker was in *)
+Theorem C19_effective_delay_is_the_computed_delay :
+  forall t now w, 0 <= w -> wait_wakes impl_drain t now w = now + w.
+Proof. exact wait_drain_exact. Qed.
+Print Assumptions C19_effective_delay_is_the_computed_delay.
+
+(* regression documentation: without the drain loop a contact longer than the period makes the
+   next wait() return at once *)
+Theorem C19_without_drain_stale_tick_ends_the_sleep :
+  forall t now w, 0 < t_period t -> t_next t <= now -> wait_wakes false t now w = now.
+Proof. exact wait_no_drain_stale. Qed.
+Print Assumptions C19_without_drain_stale_tick_ends_the_sleep.
+
 (* ---------------------------------------------------------------- non-vacuity *)
 (* Monday-Friday 9:00-17:00: "go" on Tuesday 10:00, "wait 1 h" on Tuesday 8:00, "wait until
    midnight" on a Sunday, "wait until 9:00 tomorrow" at 17:00:00.000000001 *)
